@@ -1004,6 +1004,7 @@ class SSHConnection(SSHPacketHandler, asyncio.Protocol):
 
         self._auth: Optional[Auth] = None
         self._auth_task: Optional['asyncio.Task[None]'] = None
+        self._auth_request_pending = False
         self._auth_begun = False
         self._auth_in_progress = False
         self._auth_complete = False
@@ -2080,6 +2081,7 @@ class SSHConnection(SSHPacketHandler, asyncio.Protocol):
 
             packet += String(sig)
 
+        self._auth_request_pending = True
         self.send_userauth_packet(MSG_USERAUTH_REQUEST, packet[1:],
                                   trivial=trivial)
 
@@ -2603,6 +2605,7 @@ class SSHConnection(SSHPacketHandler, asyncio.Protocol):
 
         if self.is_client() and self._auth:
             auth = cast(ClientAuth, self._auth)
+            self._auth_request_pending = False
 
             if partial_success: # pragma: no cover
                 # Partial success not implemented yet
@@ -2622,8 +2625,9 @@ class SSHConnection(SSHPacketHandler, asyncio.Protocol):
 
         packet.check_end()
 
-        if self.is_client() and self._auth:
+        if self.is_client() and self._auth and self._auth_request_pending:
             auth = cast(ClientAuth, self._auth)
+            self._auth_request_pending = False
 
             if self._auth_was_trivial and self._disable_trivial_auth:
                 raise PermissionDenied('Trivial auth disabled')
